@@ -22,7 +22,7 @@ COMPONENTS = {
     'stub': ['user objective', 'PRNG seam', 'joblib', 'time.time', 'uuid1'],
 }
 PROBES_EXPECTED = ['sort_calls', 'duplicate_costs', 'mixed_feasibility', 'depth_ge_3', 'depth_ge_5', 'all_front_one',
-                   'reordered_pools', 'nsga2', 'omopso']
+                   'reordered_pools', 'rescaled_pools', 'nsga2', 'omopso']
 
 
 def hooks(ctx, w, D):
@@ -71,7 +71,7 @@ def hooks(ctx, w, D):
         if n >= 2 and st['n'] <= 12:
             from artap.individual import Individual
             saved = Individual.counter          # the clones must not shift the ids of the run's own designs
-            for variant in (0, 1):
+            for variant in (0, 1, 2):
                 order = list(range(n))[::-1] if variant == 0 else sorted(
                     range(n), key=lambda i: D.dec('work', ('shuf', st['n'], i), 1 << 16))
                 clones = []
@@ -80,11 +80,18 @@ def hooks(ctx, w, D):
                     c = src.__class__(list(src.vector))
                     c.id = src.id
                     c.costs_signed = list(src.costs_signed)
+                    if variant == 2:
+                        # a strictly increasing map of one objective (huge scale and offset) leaves every rank unchanged,
+                        # but sums / differences of costs now lose the small objectives to rounding
+                        c.costs_signed[0] = float(c.costs_signed[0]) * 1e17 + 4e17
                     c.costs = list(src.costs)
                     clones.append(c)
                 orig(self, clones)
                 ctx.probe('reordered_pools')
-                if not judge(clones, site, 'pool of %d in %s order' % (n, 'reversed' if variant == 0 else 'shuffled')):
+                if variant == 2:
+                    ctx.probe('rescaled_pools')
+                if not judge(clones, site, 'pool of %d in %s order%s' % (n, 'reversed' if variant == 0 else 'shuffled',
+                                                                           ' with objective 0 mapped to c*1e17+4e17' if variant == 2 else '')):
                     break
             Individual.counter = saved
         return r
